@@ -238,6 +238,28 @@ def refill_rule():
     return 'bool', cbool(ok)
 
 
+def initialreads_contained():
+    """start-up: `mobj.initialReads()` is the only statement of a try whose handlers are
+    `except CommunicationFailedError: raise` and `except Exception:` without any raise"""
+    th = _thread()
+    w = _main_while()
+    inside = set(id(n) for n in ast.walk(w))
+    calls = [c for c in walk_type(th, ast.Call) if id(c) not in inside and _norm(c.func) == 'mobj.initialReads']
+    if len(calls) != 1:
+        raise Shape('expected exactly one mobj.initialReads() call in the start-up phase')
+    for t in walk_type(th, ast.Try):
+        if len(t.body) == 1 and _norm(t.body[0]) == 'mobj.initialReads()':
+            hs = t.handlers
+            ok = (len(hs) == 2 and not t.finalbody and not t.orelse
+                  and hs[0].type is not None and _norm(hs[0].type) == 'CommunicationFailedError'
+                  and [_norm(x) for x in hs[0].body] == ['raise']
+                  and hs[1].type is not None and _norm(hs[1].type) == 'Exception'
+                  and not walk_type(ast.Module(body=hs[1].body, type_ignores=[]), ast.Raise)
+                  and not walk_type(ast.Module(body=hs[1].body, type_ignores=[]), ast.Return))
+            return 'bool', cbool(ok)
+    return 'bool', 'false'
+
+
 def trigger_rule():
     """PollInfo.trigger / update_interval and Module.setFastPoll shapes"""
     pi = _pollinfo()
@@ -254,7 +276,7 @@ def trigger_rule():
 FACTS = [max_wait_ticks, startup_wait_ticks, poll_default_read, poll_without_read_func, nopoll_value,
          poll_default_handler, poll_common_rest, thread_collects_only_polled, callpoll_contains_exceptions,
          callpoll_reraise_guarded, mainloop_never_reraises, main_due_rule, wait_rule, slow_fresh_twice,
-         refill_rule, trigger_rule]
+         refill_rule, trigger_rule, initialreads_contained]
 
 FINGERPRINTS = {
     'Module.__pollThread': _thread,
